@@ -163,6 +163,8 @@ pub fn run(sc: &J) -> J {
             "function" => b.with_function(Planned { name: leak(st["name"].as_str().unwrap()), cacheable: st["cacheable"].as_bool().unwrap_or(true),
                 results: st["results"].as_array().cloned().unwrap_or_default(), by_param: st["by_param"].as_array().cloned().unwrap_or_default(), pending: st["pending"].as_u64().unwrap_or(0) as usize,
                 calls: Mutex::new(0), log: log.clone() }),
+            "functions" => b.with_functions(st["names"].as_array().unwrap().iter().map(|n| Box::new(Planned { name: leak(n.as_str().unwrap()), cacheable: true,
+                results: vec![], by_param: vec![], pending: 0, calls: Mutex::new(0), log: log.clone() }) as Box<dyn UserFunction + Send + Sync>).collect::<Vec<_>>()),
             "rule" => b.with_rule(Rule::new(st["name"].as_str().unwrap(), Default::default(), expr(&st["expr"]))),
             "rules" => b.with_rules(st["rules"].as_array().unwrap().iter().map(|r| Rule::new(r["name"].as_str().unwrap(), Default::default(), expr(&r["expr"]))).collect::<Vec<_>>()),
             "symbol" => Ok(b.with_symbol(st["name"].as_str().unwrap(), value(&st["value"]))),
